@@ -190,6 +190,11 @@ impl CargoTomlParser {
                 "inline_table" => {
                     // Inline table: serde = { version = "1.0", features = ["derive"] }
                     version_info = self.extract_version_from_inline_table(child, content);
+                    // A renamed dependency (alias = { package = "real", version = "1.0" }) is
+                    // known to the registry under its `package` name
+                    if let Some(real_name) = self.inline_table_package(child, content) {
+                        package_name = Some(real_name);
+                    }
                 }
                 _ => {}
             }
@@ -265,6 +270,39 @@ impl CargoTomlParser {
             }
         }
 
+        None
+    }
+
+    /// The value of the `package` key of an inline table (the real name of a renamed dependency)
+    fn inline_table_package(&self, table_node: tree_sitter::Node, content: &str) -> Option<String> {
+        let mut cursor = table_node.walk();
+        for child in table_node.children(&mut cursor) {
+            if child.kind() != "pair" {
+                continue;
+            }
+            let mut pair_cursor = child.walk();
+            let mut is_package_key = false;
+            for pair_child in child.children(&mut pair_cursor) {
+                match pair_child.kind() {
+                    "bare_key" => {
+                        is_package_key = &content[pair_child.byte_range()] == "package";
+                    }
+                    "string"
+                        if is_package_key
+                            && is_closed_string(&content[pair_child.byte_range()]) =>
+                    {
+                        let text = &content[pair_child.byte_range()];
+                        return Some(
+                            text.trim()
+                                .trim_start_matches(['"', '\''])
+                                .trim_end_matches(['"', '\''])
+                                .to_string(),
+                        );
+                    }
+                    _ => {}
+                }
+            }
+        }
         None
     }
 
